@@ -88,7 +88,9 @@ int main(int argc, char **argv)
         else if (op[0] == 'P') { fscanf(ops, "%%d", &id); yypush_buffer_state(h[id] %(S)s); if (sp > 0 && stack[sp - 1] < 0) stack[sp - 1] = id; else stack[sp++] = id; }
         else if (op[0] == 'O') { if (sp > 0) { int top = stack[sp - 1]; if (top >= 0) { h[top] = 0; if (mem[top]) { /* user memory outlives the buffer */ } } sp--; }
             yypop_buffer_state(%(S1)s); }
-        else if (op[0] == 'F') { fscanf(ops, "%%d", &id); yy_flush_buffer(h[id] %(S)s); }
+        else if (op[0] == 'F') { fscanf(ops, "%%d", &id);
+            /* the current buffer is flushed through the short form every other time (YY_FLUSH_BUFFER / yy_flush_current_buffer) */
+            if (sp > 0 && stack[sp - 1] == id && (id %% 2) == 1) { %(FLUSHCUR)s } else yy_flush_buffer(h[id] %(S)s); }
         else if (op[0] == 'D') { fscanf(ops, "%%d", &id); yy_delete_buffer(h[id] %(S)s); h[id] = 0; if (sp > 0 && stack[sp - 1] == id) stack[sp - 1] = -1; }
         else if (op[0] == 'X') { /* delete the user's own buffers that are not on the stack, destroy, start afresh */
             for (i = 0; i < MAXB; i++) { int j, onstack = 0; for (j = 0; j < sp; j++) if (stack[j] == i) onstack = 1;
@@ -157,7 +159,8 @@ def make_spec(prog, rng, backend, lineno, alloc="", extra_options=None, fini_ext
     if backend == 'c99':
         out.append("<*>.|\\n\t{ %s; return 1; }" % (tokm % (nrules + 1)))
     out.append("%%")
-    out.append(EV + MAIN % {'S': S, 'S1': S1, 'decl': decl, 'init': init, 'fini': fini + fini_extra,
+    flushcur = {'nr': "YY_FLUSH_BUFFER;", 'r': "yy_flush_buffer(h[id], s);", 'c99': "yy_flush_current_buffer(s);"}[backend]
+    out.append(EV + MAIN % {'S': S, 'S1': S1, 'decl': decl, 'init': init, 'fini': fini + fini_extra, 'FLUSHCUR': flushcur,
                             'BT': 'yybuffer' if backend == 'c99' else 'YY_BUFFER_STATE', 'WARG': 'void' if backend == 'nr' else 'yyscan_t s',
                             'destroy': ('yylex_destroy(); yyin = fopen("/dev/null", "rb");' if backend == 'nr' else
                                         'yylex_destroy(s); if (yylex_init(&s)) return 3; yyset_in(fopen("/dev/null", "rb"), s);')})
